@@ -215,7 +215,7 @@ def execute(scn, ctx):
     seam.seed(scn["np_seed"])
     spec = scn["object"]
     src, callers = M.build_scores(spec)
-    cfp = M.fingerprint(list(callers.values()))
+    cfp = callers.fp0
     easy = bool(src.nb_easy_pos or src.nb_easy_neg)
     viol, trace, sig = [], [], []
     probes, faults = {}, {}
